@@ -140,13 +140,13 @@ macro_rules! build_un_c03 {
             $bx(s.reduce_initial(seed.clone(), move |a: V, v: V| f.eval(a, v)))
           }
           Un::Count => $bx(s.count().map(|n: usize| V::I(n as i64))),
-          Un::Sum => $bx(s.map(|v: V| to_i(&v)).sum().map(V::I)),
+          Un::Sum => $bx(s.map(|v: V| std::num::Wrapping(to_i(&v))).sum().map(|w: std::num::Wrapping<i64>| V::I(w.0))),
           Un::Min => $bx(s.min()),
           Un::Max => $bx(s.max()),
           Un::Average => $bx(
-            s.map(|v: V| to_i(&v) as f64)
+            s.map(|v: V| avg_in(&v))
               .average()
-              .map(|x: f64| V::I((x * 1000.0).round() as i64)),
+              .map(avg_out),
           ),
           Un::Distinct => $bx(s.distinct()),
           Un::DistinctKey(k) => {
@@ -530,6 +530,9 @@ pub fn exec_cold(node: &Node, n: usize, nested: bool) -> Option<ColdRun> {
 
 pub struct GroupProbe {
   log: Sh<Vec<(i64, usize, Ev)>>,
+  /// 0: subscribe every group; 1: leave groups with key % 3 == 0 without a subscriber;
+  /// 2: subscribe groups with an odd key through take(1)
+  policy: u8,
 }
 pub struct TagProbe {
   key: i64,
@@ -554,7 +557,16 @@ impl Observer<rxrust::ops::group_by::KeyObservable<i64, Subj>, E> for GroupProbe
     let key = g.key;
     // the stream of groups is logged under key -1; the item is the group's key
     lock!(self.log).push((-1, crate::stamp::get(), Ev::N(V::I(key))));
-    let _ = g.actual_subscribe(TagProbe { key, log: self.log.clone() });
+    let probe = TagProbe { key, log: self.log.clone() };
+    match self.policy {
+      1 if key.rem_euclid(3) == 0 => {}
+      2 if key.rem_euclid(2) == 1 => {
+        let _ = g.take(1).actual_subscribe(probe);
+      }
+      _ => {
+        let _ = g.actual_subscribe(probe);
+      }
+    }
   }
   fn error(self, e: E) {
     lock!(self.log).push((-1, crate::stamp::get(), Ev::Er(e)))
@@ -570,7 +582,7 @@ impl Observer<rxrust::ops::group_by::KeyObservable<i64, Subj>, E> for GroupProbe
 /// C20: run group_by over a cold (`create`) or hot (Subject) source with a probe
 /// attached to each group as it is announced; returns the global log
 /// (group key | -1 for the stream of groups, step, notification)
-pub fn exec_group_by(hot: bool, script: &[Ev], key: KeyF) -> Vec<(i64, usize, Ev)> {
+pub fn exec_group_by(hot: bool, script: &[Ev], key: KeyF, policy: u8) -> Vec<(i64, usize, Ev)> {
   crate::vtime::reset(crate::vtime::Mode::Fifo);
   crate::stamp::set(crate::stamp::AT_SUBSCRIBE);
   let env = Env::new(1);
@@ -581,7 +593,7 @@ pub fn exec_group_by(hot: bool, script: &[Ev], key: KeyF) -> Vec<(i64, usize, Ev
     Node::Src(Src::Create(script.iter().map(|e| (0u8, e.clone())).collect()))
   };
   let s = build(&src, &env);
-  let _sub = s.group_by::<_, _, Subj>(move |v: &V| key.eval(v)).actual_subscribe(GroupProbe { log: log.clone() });
+  let _sub = s.group_by::<_, _, Subj>(move |v: &V| key.eval(v)).actual_subscribe(GroupProbe { log: log.clone(), policy });
   if hot {
     for (k, ev) in script.iter().enumerate() {
       crate::stamp::set(k);
